@@ -1,4 +1,5 @@
 """C18 — debug and quiet options change what is printed, never what is simulated."""
+from props import C19
 from props.common_prog import judge_prog
 
 THEOREM_MODULES = ["Hcl.Theorems.C18", "Hcl.Theorems.C18Messages", "Hcl.Tie.PinsTable"]
@@ -68,4 +69,6 @@ def streams(tier, seed):
             {"name": "table", "stream": "table", "count": 300 if q else 12000, "judge": judge_table},
             {"name": "messages", "stream": "messages", "count": 300 if q else 12000, "judge": judge_messages},
             {"name": "trace", "stream": "trace", "count": 3000 if q else 100000, "judge": judge_trace},
-            {"name": "disasm", "stream": "disasm", "count": 2 if q else 10, "judge": judge_trace}]
+            {"name": "disasm", "stream": "disasm", "count": 2 if q else 10, "judge": judge_trace},
+            # the same through FILES and the command line (accepted, rejected, big, not UTF-8, bare-CR, empty and malformed images, -q/-d/-t with and without TIMEOUT): the real binary, as in C19
+            {"name": "cli", "stream": "cli", "count": 300 if q else 8000, "pygen": C19.pygen, "judge": C19.judge}]
